@@ -272,7 +272,7 @@ def valid_vector(p, alt, cnt=None):
     if k == "sum":
         return valid_vector(p[3] if alt == 1 else p[2], alt, cnt)
     if k == "commands":
-        n, _, q = p[2][alt % len(p[2])]
+        n, _, q, _ = p[2][alt % len(p[2])]
         return valid_vector(p[1], alt, cnt) + [n] + valid_vector(q, alt, cnt)
     raise ValueError(k)
 
